@@ -1,7 +1,7 @@
 (* Correspondence for C16: the SOURCE PROJECTION of the draw trace.  For every call the harness records
    (completed?, global generator drawn from, a generator created inside the call drawn from, the passed
    instance drawn from, np.random.get_state() changed); the model executes the entry point's skeleton
-   (Model/Draws.v) on the toy counter generator and must predict exactly these five bits.  Draw counts,
+   (Model/Draws.v) on the toy counter generator and must predict these five bits (see [proj_eqb] for the one tolerated difference).  Draw counts,
    shapes and values are deliberately not compared. *)
 From Coq Require Import List Arith ZArith Bool.
 From TLV Require Import Model.Draws Corr.Common.
@@ -9,10 +9,17 @@ Import ListNotations.
 
 Definition case := (nat * ep * opts * rsarg Z * projection)%type.
 
-Definition proj_eqb (a b : projection) : bool :=
-  let '(ok1, g1, f1, p1, s1) := a in let '(ok2, g2, f2, p2, s2) := b in
+(* [m] = the model's prediction, [obs] = the trace.  Compared exactly: completed, global generator drawn from, the passed
+   instance drawn from, global state changed.  "An object created inside the call was drawn from" is compared one way only: if
+   the model predicts it, it must be observed; an ADDITIONAL generator object created and used inside the call is tolerated when
+   a parent generator was drawn from in the same call (a child generator seeded from the seeded stream is a harmless
+   refactoring: still a function of the seed; an object seeded from anywhere else shows in the static check and in the
+   bitwise predicates). *)
+Definition proj_eqb (m obs : projection) : bool :=
+  let '(ok1, g1, f1, p1, s1) := m in let '(ok2, g2, f2, p2, s2) := obs in
   if negb ok1 && negb ok2 then true     (* both rejected: what was drawn before the error is not compared *)
-  else Bool.eqb ok1 ok2 && Bool.eqb g1 g2 && Bool.eqb f1 f2 && Bool.eqb p1 p2 && Bool.eqb s1 s2.
+  else Bool.eqb ok1 ok2 && Bool.eqb g1 g2 && Bool.eqb p1 p2 && Bool.eqb s1 s2 &&
+       implb f1 f2 && implb f2 (f1 || p2 || g2).
 
 Definition agree (c : case) : bool :=
   let '(_, e, o, a, obs) := c in proj_eqb (model_projection e o a) obs.
